@@ -154,6 +154,24 @@ func runC09(c *Ctx) {
 	c.R.Rule("signed corpus invoices (1 or 2 signatures, header entries present before signing chosen per envelope) × post-signing history classes (none, +stamp/+link/+tag/+meta/+notes, signed entry removed or altered, uuid/digest replaced, document edited with and without recalculation, signature transplanted, signature order swapped, same header signed by another key) × key sets, presented to library Verify, `gobl verify` process, POST /verify and POST /bulk verify; non-trivial = the expected verdict of the history differs between at least two keys; distinct by (envelope, history, path, keys)")
 	c.R.Assume("expected verdict: every signature was made by one of the presented keys and the current header contains the header that signature covers (own comparison of uuid, dig, stamps, links, tags, meta, notes); the CLI/HTTP/bulk paths validate the envelope first, so their expected verdict also requires Envelope.Validate()==nil")
 	keys := []*dsig.PrivateKey{dsig.NewES256Key(), dsig.NewES256Key(), dsig.NewES256Key()}
+	// impostors: other key pairs that present the key id of signer 0 / signer 1
+	pubs := make([]*dsig.PublicKey, 0, 5)
+	for _, k := range keys {
+		pubs = append(pubs, k.Public())
+	}
+	for target := 0; target < 2; target++ {
+		var m map[string]any
+		b, _ := json.Marshal(dsig.NewES256Key().Public())
+		_ = json.Unmarshal(b, &m)
+		m["kid"] = keys[target].ID()
+		b, _ = json.Marshal(m)
+		imp := new(dsig.PublicKey)
+		if err := json.Unmarshal(b, imp); err != nil || imp.ID() != keys[target].ID() {
+			c.R.Inconclusive("cannot-build-impostor-key")
+			return
+		}
+		pubs = append(pubs, imp) // indexes 3 and 4
+	}
 	invs := corpus.Invoices()
 	nEnv := c.N(6, 60)
 	rng := c.Rand(1)
@@ -177,10 +195,10 @@ func runC09(c *Ctx) {
 	}()
 	tmp, _ := os.MkdirTemp("", "verif-c09-")
 	defer os.RemoveAll(tmp)
-	pubFiles := make([]string, len(keys))
-	pubJSON := make([][]byte, len(keys))
-	for i, k := range keys {
-		pubJSON[i], _ = json.Marshal(k.Public())
+	pubFiles := make([]string, len(pubs))
+	pubJSON := make([][]byte, len(pubs))
+	for i, k := range pubs {
+		pubJSON[i], _ = json.Marshal(k)
 		pubFiles[i] = filepath.Join(tmp, fmt.Sprintf("k%d.pub.jwk", i))
 		_ = os.WriteFile(pubFiles[i], pubJSON[i], 0o644)
 	}
@@ -244,7 +262,9 @@ func runC09(c *Ctx) {
 	}
 	c.R.Set("histories", len(cases))
 
-	keySets := [][]int{{0}, {1}, {2}, {0, 1}, {}}
+	// on one in-memory envelope, in this order: the signer's key first, then the
+	// impostor presenting the same key id
+	keySets := [][]int{{0}, {3}, {1}, {4}, {2}, {0, 1}, {3, 1}, {0, 4}, {}}
 	c.Parallel(len(cases), func(i int) {
 		cs := cases[i]
 		cur := headOf(cs.envRaw)
@@ -262,12 +282,12 @@ func runC09(c *Ctx) {
 			want := expectedVerify(cs, cur, ks)
 			verdicts[want]++
 			// (L) library
-			var pubs []*dsig.PublicKey
+			var pks []*dsig.PublicKey
 			for _, k := range ks {
-				pubs = append(pubs, keys[k].Public())
+				pks = append(pks, pubs[k])
 			}
 			var lerr error
-			p, _ := Safely(func() { lerr = env.Verify(pubs...) })
+			p, _ := Safely(func() { lerr = env.Verify(pks...) })
 			c.R.Count("verifications:library", 1)
 			c09judge(c, cs, "library", ks, want, p == nil && lerr == nil, fmt.Sprint(lerr, p))
 			if len(ks) != 1 {
